@@ -54,9 +54,12 @@ theorem load_save (b : AccessBitmap) : load T (save T b) = b.mask Spec.definedBi
 
 /-- Bit by bit: privilege `i` is held after save→load iff it is a defined privilege and was held before
     (every defined privilege preserved, no other granted). -/
-theorem load_save_isSet (b : AccessBitmap) (i : Nat) (hi : i < 64) :
-    (load T (save T b)).isSet i = true ↔ i ∈ Spec.definedBits ∧ b.isSet i = true :=
-  isSet_load_save T Spec.definedBits tables_ok b i hi
+theorem load_save_isSet (b : AccessBitmap) (i : Nat) :
+    (load T (save T b)).isSet i = true ↔ i ∈ Spec.definedBits ∧ b.isSet i = true := by
+  by_cases hi : i < 64
+  · exact isSet_load_save T Spec.definedBits tables_ok b i hi
+  · rw [isSet_ge _ i (by omega), isSet_ge b i (by omega)]
+    simp
 
 example : load T (save T (ofBits [0, 19, 23, 40, 41, 63])) = ofBits [0, 23, 40] := by decide +kernel
 
@@ -65,7 +68,7 @@ theorem load_save_defined (b : AccessBitmap) (h : ∀ i, i < 64 → b.isSet i = 
     load T (save T b) = b := by
   apply ext_isSet
   intro i hi
-  have := load_save_isSet b i hi
+  have := load_save_isSet b i
   cases h1 : (load T (save T b)).isSet i <;> cases h2 : b.isSet i <;> simp_all
 
 /-- In the file, the key written `true` for privilege `i` is the documented name of privilege `i`
@@ -99,7 +102,7 @@ theorem legacy_same_as_named (b : AccessBitmap) :
   refine ⟨by simp [load_save], ?_⟩
   intro i hi
   have h64 : i < 64 := defined_lt T Spec.definedBits tables_ok i hi
-  have := load_save_isSet b i h64
+  have := load_save_isSet b i
   simp only [Option.map_some, Option.some.injEq]
   cases h1 : (load T (save T b)).isSet i <;> cases h2 : b.isSet i <;> simp_all
 
